@@ -59,6 +59,7 @@ static void cov_flush(Replicas& reps) {
 
 void conc_protect_modules(Replicas& reps);   // sc_conc.cpp
 static std::string g_arm_note;
+int g_buf_guard = 0;
 // All replica sets are loaded through here: the dlopen-ed builds plus the interpreted ARM back ends (C03).
 static bool load_all(Replicas& reps, std::string& err) {
     if (!reps.load(replica_dir(), err)) return false;
@@ -78,6 +79,7 @@ RunResult execute_plan(const Plan& plan, Replicas& reps, const std::string& rep_
     const int* old_step = tl_step_ptr; tl_step_ptr = &env.step;
     Rep* old_rep = tl_env_rep; int old_view = tl_env_view; tl_env_rep = env.rep; tl_env_view = view; tl_list_modified = nullptr;
     env.logf("plan %s rep-independent", plan.scenario.c_str());
+    int old_guard = g_buf_guard; g_buf_guard = (int) plan.c("guard", 0); if (g_buf_guard) env.count(g_buf_guard == 2 ? "fault:caller_objects_begin_at_start_of_mapped_memory" : "fault:caller_objects_end_at_end_of_mapped_memory");
     try {
         sc->run(plan, env);
     } catch (Violation& v) {
@@ -88,6 +90,7 @@ RunResult execute_plan(const Plan& plan, Replicas& reps, const std::string& rep_
         env.res.v = {"C10", "liveness:sampler-not-terminating", strf("a library call made %zu random requests without returning (bound: scripted answers + 256 fair ones)", o.requests), env.step};
         env.logf("VIOLATION liveness step %d", env.step);
     }
+    g_buf_guard = old_guard;
     tl_stream = old_s; tl_hash = old_h; tl_step_ptr = old_step; tl_env_rep = old_rep; tl_env_view = old_view;
     env.rep->apply_dispatch();
     uint8_t d[32]; env.logsha.final(d); env.res.fingerprint = hex(d, 16);
@@ -242,7 +245,9 @@ static Plan plan_for(const Batch& b, size_t bidx, uint64_t seed, uint64_t idx) {
     std::map<std::string, int64_t> knobs = b.knobs; knobs["__idx"] = (int64_t) idx;
     Plan p = sc->generate(rs, knobs);
     p.scenario = b.scenario;
-    if (b.mode == "duo") { knobs["__idx"] = (int64_t) idx + 1000003; Plan q = sc->generate(mix3(rs, 0xD00, idx), knobs); q.scenario = b.scenario; return join_duo(p, q); }
+    if (b.mode == "duo") { knobs["__idx"] = (int64_t) idx + 1000003; Plan q = sc->generate(mix3(rs, 0xD00, idx), knobs); q.scenario = b.scenario; p = join_duo(p, q); }
+    // guard knob of the batch: 1 / 2 = every run, 3 = alternate, 4 = one run in four (alternating)
+    { auto it = b.knobs.find("guard"); if (it != b.knobs.end()) { int64_t g = it->second; if (g == 3) g = 1 + (int64_t) (idx & 1); else if (g == 4) g = (idx % 4 == 1) ? 1 : (idx % 4 == 3) ? 2 : 0; if (g) p.cfg["guard"] = g; } }
     return p;
 }
 
